@@ -536,3 +536,14 @@ def replay_file(path):
         return 1 if (r["reproduced_dev"] or r["reproduced_release"]) else 0
     finally:
         shutil.rmtree(scratch, ignore_errors=True)
+
+
+def replays_dir(prop):
+    """where counterexamples are written: /verif/replays/<id> for the registered commands, the
+    scratch work directory for experiments (scratch repository, other work dir)"""
+    if os.environ.get("VERIF_WORK") or os.environ.get("VERIF_REPO"):
+        d = os.path.join(WORK, "replays", prop)
+    else:
+        d = os.path.join(VERIF, "replays", prop)
+    os.makedirs(d, exist_ok=True)
+    return d
